@@ -134,6 +134,16 @@ func (combatComp) Exec(c *wire.Case, w *wire.Writer) {
 	weak := map[key.TargetID]info.WeaknessMap{}
 	var healAdj *wire.Rec
 	ev.HealStart.Subscribe(func(e *event.HealStart) {
+		// a listener that answers a heal with a heal of its own (to another unit), before it adjusts anything
+		if op := healAdj; op != nil && op.Has("nest") {
+			healAdj = nil // the listener's own heal is an ordinary one
+			bh := info.HealMap{}
+			for k, v := range parseTerms(op.List("nterms")) {
+				bh[model.HealFormula(k)] = v
+			}
+			mgr.Heal(info.Heal{Key: "nested", Targets: []key.TargetID{key.TargetID(op.Int("ntgt"))}, Source: key.TargetID(op.Int("nsrc")), BaseHeal: bh, HealValue: op.Flt("nflat")})
+			healAdj = op
+		}
 		if healAdj == nil || !healAdj.Has("adj") {
 			return
 		}
@@ -358,6 +368,28 @@ func healOp(r *rand.Rand, src int, targets []int, adj bool) *wire.Rec {
 	return op
 }
 
+// withNestedHeal makes the heal's HealStart listener perform a heal of its own on a unit that is not among the outer targets
+func withNestedHeal(r *rand.Rand, op *wire.Rec, src int, units []int) *wire.Rec {
+	var free []int
+	for _, u := range units {
+		in := false
+		for _, t := range op.Ints("targets") {
+			in = in || t == u
+		}
+		if !in {
+			free = append(free, u)
+		}
+	}
+	if len(free) == 0 {
+		return op
+	}
+	terms := map[int]float64{pick(r, 1, 3, 4, 5): pick(r, 0.05, 0.5, 0.2)}
+	if r.Intn(3) == 0 {
+		terms[pick(r, 2, 4)] = 0.1
+	}
+	return op.I("nest", 1).I("nsrc", pick(r, src, free[r.Intn(len(free))])).I("ntgt", free[r.Intn(len(free))]).Ss("nterms", termsStr(terms)).F("nflat", pick(r, 0.0, 30))
+}
+
 func (combatComp) Gen(r *rand.Rand, tier string, n int) []*wire.Case {
 	var cases []*wire.Case
 	mk := func(id string, ops ...*wire.Rec) { cases = append(cases, &wire.Case{ID: id, Ops: ops}) }
@@ -440,6 +472,10 @@ func (combatComp) Gen(r *rand.Rand, tier string, n int) []*wire.Case {
 		set(atk(1, 3, []int{2}, 1, 2, 0.5), "flat", wire.FStr(100000)), wire.R("endattack"), hl(2, []int{1}, map[int]float64{1: 0.1}, 15),
 		hl(1, []int{2, 1}, map[int]float64{1: 0.1}, 150), hl(1, []int{2}, map[int]float64{1: 0.1}, 15), set(atk(2, 3, []int{2}, 1, 2, 0.5), "flat", wire.FStr(100000)), wire.R("endattack"),
 		hl(1, []int{2}, map[int]float64{2: 0.5}, 0), set(atk(3, 3, []int{1}, 1, 2, 0.5), "flat", wire.FStr(100000)), wire.R("endattack"), hl(2, []int{1}, map[int]float64{1: 0.1}, 15))
+	// a heal listener that heals somebody else from inside the announcement of a heal: both heals have their own documented amounts
+	mk("d-heal-nested", plainU(1, true, 1), plainU(2, true, 0.1), plainU(3, true, 0.25), plainU(4, false, 0.5),
+		hl(1, []int{2}, map[int]float64{1: 0.1}, 10).I("nest", 1).I("nsrc", 1).I("ntgt", 3).Ss("nterms", termsStr(map[int]float64{4: 0.5})).F("nflat", 0),
+		hl(1, []int{2, 4}, map[int]float64{1: 0.05, 5: 0.1}, 0).I("nest", 1).I("nsrc", 3).I("ntgt", 3).Ss("nterms", termsStr(map[int]float64{3: 0.01, 2: 0.02})).F("nflat", 5).I("adj", 1).F("aflat", 7).I("akind", 3).F("aterm", 0.05).F("aatk", 100).F("ataken", 0.2))
 	mk("d-heal-adj", plainU(1, true, 1), plainU(2, true, 0.5), hl(1, []int{2}, map[int]float64{1: 0.1}, 15).I("adj", 1).F("aflat", 7).I("akind", 0).F("aterm", 0).F("aatk", 0).F("ataken", 0),
 		hl(1, []int{2}, map[int]float64{1: 0.1}, 0).I("adj", 1).F("aflat", 0).I("akind", 3).F("aterm", 0.05).F("aatk", 100).F("ataken", 0.2))
 	mk("d-heal-bonus", set(plainU(1, true, 1), "healboost", wire.FStr(0.3)), set(plainU(2, true, 0.1), "healtaken", wire.FStr(0.2)), hl(1, []int{2}, map[int]float64{3: 0.1}, 5),
@@ -478,7 +514,12 @@ func (combatComp) Gen(r *rand.Rand, tier string, n int) []*wire.Case {
 				for t := 0; t < 1+r.Intn(2); t++ {
 					tg = append(tg, pick(r, 1, 2, 3, 4))
 				}
-				ops = append(ops, healOp(r, pick(r, 1, 2, 3), tg, r.Intn(2) == 0))
+				hsrc := pick(r, 1, 2, 3)
+				hop := healOp(r, hsrc, tg, r.Intn(2) == 0)
+				if r.Intn(4) == 0 {
+					hop = withNestedHeal(r, hop, hsrc, []int{1, 2, 3, 4})
+				}
+				ops = append(ops, hop)
 			case 9:
 				u := units[r.Intn(4)]
 				ops = append(ops, cstatsInto(r, wire.R("stats"), u, extreme))
